@@ -12,14 +12,14 @@ CHECKS = {
             "TLC checks partition / totality / monotonicity / round trip / refusal on the specification's tables and call machine "
             "(complete: the domain is finite); every cell of the TLC-computed result table is replayed on the implementation and the "
             "implementation's answers on a wider domain are validated by the trace spec. The domain is finite and covered completely, "
-            "so model checking plus complete conformance is the right level.",
+            "so model checking plus complete conformance is the right level. The repository's own test-suite, recorded from outside by harness/record_plugin.py, is a further driver: every recorded call is validated by the same trace spec (stage S3b).",
             "Trusted: the transcription of STIX 2.1 Appendix A into spec/Confidence.tla; label spellings as documented by the library.",
             "DESIGN.md §3.12"),
     "C15": ("timestamps", "TLA+ integer-arithmetic spec of timestamp text; TLC exhaustive (all us values, all days in thorough); table replay + trace validation",
             "TLC checks on spec/Timestamps.tla that the library's formatting rule satisfies canonical shape / digit count / same-instant-truncated / fixed point / order "
             "for every boundary input (thorough: all 10^6 microsecond values x 6 precision settings and all 3.65M calendar days). The implementation is bound by replaying "
             "the TLC-computed table through every input form and by validating thousands of recorded executions (datetimes, dates, text spellings, STIXdatetime, object properties) "
-            "against the property predicates evaluated by TLC.",
+            "against the property predicates evaluated by TLC. The repository's own test-suite, recorded from outside by harness/record_plugin.py, is a further driver: every recorded call is validated by the same trace spec (stage S3b).",
             "Trusted: proleptic Gregorian arithmetic in the spec (checked invertible by TLC); Python datetime only to build inputs. Outside the replayed table conformance is sampling.",
             "DESIGN.md §3.9"),
     "C05": ("versioning", "TLA+ state machine of new_version/revoke with the clock as environment-chosen argument; TLC exhaustive; case-table replay + trace validation",
@@ -32,7 +32,7 @@ CHECKS = {
             "TLC checks on spec/CanonJson.tla that canonical text is order-independent, whitespace-free, reads back to the same value and is a fixed point, over all small values "
             "(keys where UTF-16 and code-point order disagree, every escape class, digit strings x exponents -10..25, nesting 2, NaN/inf refusal). RFC 8785 determines the output "
             "completely, so conformance is equality: every TLC-computed text is compared with the implementation's, and random values/doubles are validated by the trace spec "
-            "(number layout from digits established by exact rational arithmetic).",
+            "(number layout from digits established by exact rational arithmetic). The repository's own test-suite, recorded from outside by harness/record_plugin.py, is a further driver: every recorded call is validated by the same trace spec (stage S3b).",
             "Trusted: exact-rational shortest-digit check in the harness (fractions); floats with <=15 digits reconstruct exactly; well-formed Unicode only.",
             "DESIGN.md §3.10"),
     "C14": ("versionrouting", "TLA+ spec of version detection and the routing rule; TLC enumerates the complete (version argument x content shape x id class x allow_custom) matrix; every cell replayed through every entry point and validated by the trace spec",
@@ -129,7 +129,7 @@ CHECKS = {
             "TLC checks on spec/Frame.tla that no library step changes an existing heap cell, that objects stay put, and (negative config) that an in-place 'new version' is caught. Behaviours generated by TLC "
             "(caller_makes / caller_mutates / construct / new_version / deepcopy / gather / assign_refused, with the cells and objects they touch) are replayed on the library: every abstract step is realised by one of the "
             "public calls (constructors, parse, parse_observable, Bundle in every positional form, stores, factory, environment, versioning and marking functions on objects and dictionaries, serialization, deepcopy, "
-            "setattr/delattr/item assignment) on nested argument shapes of both spec versions; snapshots of all arguments, all earlier objects, the shared TLP constants and similarity weights are compared by the trace spec.",
+            "setattr/delattr/item assignment) on nested argument shapes of both spec versions; snapshots of all arguments, all earlier objects, the shared TLP constants and similarity weights are compared by the trace spec. The repository's own test-suite, recorded from outside by harness/record_plugin.py, is a further driver: every recorded call is validated by the same trace spec (stage S3b).",
             "Trusted: the snapshot function (container kinds, list order, dictionary content, leaf types; key order ignored). Stores/sinks/factories are receivers that change by design. Outside the catalogue and the generated shapes nothing is claimed; object similarity needs rapidfuzz (absent) and only its error path runs.",
             "DESIGN.md §3.14"),
 }
